@@ -98,7 +98,7 @@ Definition vstep (h : list vcell) (o : op) : list vcell * obs :=
       match vget c (map (fun _ => ISlice (Some 0) (Some 1) (Some 1)) (vshape c)) with
       | Err e => (h, OErr e)
       | Ok (_, d, Some a) => match flatten a with
-                             | [x] => (h, OArray [] d [x])
+                             | [x] => (h, item_obs d x)
                              | _ => (h, OErr ValueErr)
                              end
       | Ok (_, _, None) => (h, OErr OtherErr)
